@@ -34,7 +34,10 @@ type Eng struct {
 	callers  map[*ssa.Function][]CallSite
 
 	boxCache map[*ssa.Alloc][]ssa.Value
-	domCache map[*ssa.Function]*domInfo
+
+	allSSA    map[*ssa.Function]bool
+	InlineLog []string               // helpers made transparent (functions absent from the reference tree)
+	absorbed  map[*ssa.Function]bool // such helpers with no remaining reference
 }
 
 // CallSite is a static call of a module function.
@@ -58,7 +61,7 @@ func long(s string) string  { return strings.ReplaceAll(s, "am/", Mod+"/") }
 func Load(dir string, overlay map[string][]byte) (*Eng, error) {
 	e := &Eng{Dir: dir, TypeErrs: map[string][]string{}, SSAPkgs: map[string]*ssa.Package{},
 		byName: map[string]*ssa.Function{}, callers: map[*ssa.Function][]CallSite{},
-		boxCache: map[*ssa.Alloc][]ssa.Value{}, domCache: map[*ssa.Function]*domInfo{}}
+		boxCache: map[*ssa.Alloc][]ssa.Value{}}
 	gobin, gover := findGo()
 	if gobin == "" {
 		return nil, fmt.Errorf("no Go >= 1.25 toolchain found")
@@ -121,7 +124,24 @@ func Load(dir string, overlay map[string][]byte) (*Eng, error) {
 	}
 	// Index module functions.
 	all := ssautil.AllFunctions(prog)
+	e.allSSA = all
+	if os.Getenv("AMVERIF_NOINLINE") == "" {
+		func() {
+			defer func() {
+				if r := recover(); r != nil {
+					err = fmt.Errorf("helper inlining failed: %v", r)
+				}
+			}()
+			e.inlineNewHelpers(all)
+		}()
+		if err != nil {
+			return nil, err
+		}
+	}
 	for fn := range all {
+		if e.absorbed[fn] {
+			continue
+		}
 		if fn.Pkg == nil && fn.Origin() == nil {
 			// synthetic wrappers without package: keep only if they belong to module types
 		}
